@@ -1,4 +1,5 @@
 import SeqVerif.Model.HistAssoc
+import SeqVerif.Model.ApiAsync
 import SeqVerif.Extracted.C19
 /-!
 # C19 - a finished asynchronous search equals the synchronous one and survives restarts
@@ -71,6 +72,29 @@ theorem c19_eq_sync_hist_any_interval (c : Cfg) (fs : List Frac) (from_ to_ L hi
           = histGet q.hist k) ∧
       fetchPanicsWith hi c.desc zeroQPR ((filterInRange fs from_ to_).map (fracSearch c · L)) = false :=
   fetch_eq_sync_hist c fs from_ to_ L hi hvis hmax hnd
+
+/-! ## the public request -/
+
+open SV.Api in
+/-- the parameters `StartAsyncSearch(r)` persists (and the resumed search uses) are those `GrpcV1.Search` derives from
+the synchronous request with the same window, interval and order, `Size = MaxInt32`, `Offset = 0`, no total - for every
+int64 `From/To/HistogramInterval` (negative = above 2^63 / "open"), and both panic on an undeclared order -/
+theorem c19_request_params (r : AsyncReq) : asyncParams r = storeParams (syncRequest r) :=
+  asyncParams_eq_sync r
+
+open SV.Api in
+/-- **c19_eq_sync about the public request.**  On a cold store, for any partition of the documents into fractions:
+Done ⇒ the fetched result of `StartAsyncSearch(r)` has the IDs - and, when a histogram is requested, every histogram
+bucket - of `GrpcV1.Search(syncRequest r)` (fewer than `MaxInt32` matching documents in the window). -/
+theorem c19_request_eq_sync (s : StoreCfg) (hcold : s.hot = false) (hmh : s.maxHits = 0) (fs : List RawFrac)
+    (hok : ∀ f, f ∈ fs → f.OK) (r : AsyncReq) (p : Params) (hp : asyncParams r = some p)
+    (hsize : (windowDocs fs p.from_ p.to_).length ≤ maxInt32) :
+    ∃ q, grpcSearch s fs (syncRequest r) = .ok q ∧
+      (fetchFoldWith p.hi p.desc ((filterInRange (fs.map (·.toFrac p.from_ p.to_)) p.from_ p.to_).map
+        (fracSearch (p.cfg s) · maxInt32))).ids = q.ids ∧
+      (p.hi > 0 → ∀ k, histGet (fetchFoldWith p.hi p.desc ((filterInRange (fs.map (·.toFrac p.from_ p.to_)) p.from_ p.to_).map
+        (fracSearch (p.cfg s) · maxInt32))).hist k = histGet q.hist k) :=
+  async_request_eq_sync s hcold hmh fs hok r p hp hsize
 
 /-- **c19_resume.**  For every number `k ≥ 1` of atomic writes completed before the process dies (the request info is
 the first one), restart + resume ends with exactly the files of an uninterrupted run - hence the same fetched
@@ -163,9 +187,15 @@ theorem c19_x_key_codec :
     toKeyBody = ["mid := strconv.Itoa(int(tb.MID))", "return mid + AggBinSeparator + tb.Token"] ∧
     fromKeyCalls = ["strings.Cut", "strconv.Atoi", "MID"] := by decide
 
+/-- `StartAsyncSearch`: the parameter literal `asyncParams` models and the constant 24 h retention -/
+theorem c19_x_start_request :
+    startAsyncParams = ["AST: nil", "AggQ: aggs", "HistInterval: uint64(r.HistogramInterval)", "From: seq.MID(r.From)",
+      "To: seq.MID(r.To)", "Limit: math.MaxInt32", "WithTotal: false", "Order: r.Order.MustDocsOrder()"] ∧
+    startAsyncRequest = ["ID: r.SearchId", "Query: r.Query", "Params: params", "Retention: time.Hour * 24"] := by decide
+
 /-- an async search asks every fraction for `math.MaxInt32` IDs without total (the `L` of `c19_eq_sync_ids`) -/
 theorem c19_x_params :
-    asyncParams = ["HistInterval: uint64(r.HistogramInterval)", "Limit: math.MaxInt32", "WithTotal: false"] := by decide
+    SV.Extracted.C19.asyncParams = ["HistInterval: uint64(r.HistogramInterval)", "Limit: math.MaxInt32", "WithTotal: false"] := by decide
 
 /-! ## Non-vacuity -/
 
@@ -185,6 +215,10 @@ example :
     (searchDocs ⟨true, false, 10, false, 1, 0⟩ [⟨2, 20, 40, [key 40 0, key 20 1]⟩, ⟨2, 20, 25, [key 25 0, key 20 1]⟩] 0 100 100).map
       (fun q => histGet q.hist 20) = some 2 := by
   decide +kernel
+
+/-- a request with an "open" upper bound (-1), a window start above 2^63 and interval 1000, ascending -/
+example : SV.Async.asyncParams ⟨-9223372036854775803, -1, 1000, 1⟩
+    = some ⟨9223372036854775813, 18446744073709551615, 2147483647, 1000, false, false, false⟩ := by decide
 
 /-- a three-fraction layout satisfying the hypotheses of `c19_eq_sync_*` -/
 example : (docsOf [(⟨2, 20, 40, [key 40 0, key 20 1]⟩ : Frac), ⟨2, 10, 30, [key 30 1, key 10 0]⟩, ⟨2, 5, 25, [key 25 0, key 5 7]⟩]).Nodup ∧
